@@ -12,7 +12,7 @@ DECIDING = ["kind:random_unitary", "kind:random_density_matrix", "kind:random_ps
             "meas:born-probabilities", "meas:post-states", "meas:rejects-incomplete", "meas:is_povm"]
 RULE = ("generators: dimensions 1..6, both is_real values, k_param over its whole range, list and scalar dimension arguments, seeds drawn at random; histories: random "
         "interleavings of seeded and unseeded calls with np.random.seed perturbations and foreign default_rng draws, logged and checked offline; measurements: spanning "
-        "ensembles of 2..6 states (pure and mixed, any prior), Kraus / projective measurement sets; signature (monitor, function, dimension, options)")
+        "ensembles of 2..6 states (pure and mixed, any prior), Kraus / projective measurement sets with complex, float and integer dtype states; signature (monitor, function, dimension, options)")
 ASSUMPTIONS = [
     "kind checks are model checks (eigenvalues / singular values / Gram matrices), not the library's own predicates; tolerance 1e-9 (rank: sigma_{k+1} <= 1e-9)",
     "random_state_vector with 0 < k_param < min(dim) lives on C^{d0 d1} (C^{d^2} for a scalar d), otherwise on C^d: only unit norm and the Schmidt-rank bound are asserted",
